@@ -370,10 +370,17 @@ func wrapTop(v reflect.Value, other reflect.Value, mode int) (interface{}, strin
 const nTop = 8
 
 func run(c *runner.Ctx) {
+	// worker mode lru1: the library's own one-entry LRU is the struct-type cache for the whole process, so the entry of
+	// the object being walked is evicted (and whatever the library does on eviction happens) while the walk goes on
+	pfx := ""
+	if c.Mode == "lru1" {
+		pfx = "lru1:"
+		valid.SetStructTypeCache(valid.NewLRU(1))
+	}
 	leafMenu := map[reflect.Type][]dv{leafT: {{reflect.ValueOf(leafZ), "Z"}, {reflect.ValueOf(leafOK), "OK"}, {reflect.ValueOf(leafBAD), "BAD"}}}
 	nt := false
 	// depth 2, one field: every container x mark x value x extras x every top-level wrapper
-	c.Space("depth2/one-field")
+	c.Space(pfx + "depth2/one-field")
 	for _, ct := range containers(leafT) {
 		for _, mk := range marks {
 			for ex := 0; ex < 6; ex++ {
@@ -399,7 +406,7 @@ func run(c *runner.Ctx) {
 		}
 	}
 	// depth 2, two fields
-	c.Space("depth2/two-fields")
+	c.Space(pfx + "depth2/two-fields")
 	cts := containers(leafT)
 	for i0, c0 := range cts {
 		for _, m0 := range marks {
@@ -431,7 +438,7 @@ func run(c *runner.Ctx) {
 		}
 	}
 	// depth 3: outer container(Mid) x mark, Mid = struct{A inner-container(Leaf) `mark`}
-	c.Space("depth3")
+	c.Space(pfx + "depth3")
 	inner := containers(leafT)
 	for ii, ic := range inner {
 		for _, im := range marks {
@@ -477,7 +484,7 @@ func run(c *runner.Ctx) {
 	}
 	// depth 4 (thorough): Top{M oc(Mid)} nested once more through a reduced container set, Mid{A ic(Leaf)}
 	if c.Thorough() {
-		c.Space("depth4")
+		c.Space(pfx + "depth4")
 		pick := func(all []reflect.Type) []reflect.Type { // T, *T, []T, []*T, [2]*T, map[string]T, map[int]*T, []**T
 			return []reflect.Type{all[0], all[1], all[3], all[4], all[7], all[8], all[10], all[5]}
 		}
@@ -522,7 +529,7 @@ func run(c *runner.Ctx) {
 		}
 	}
 	// named family
-	c.Space("named")
+	c.Space(pfx + "named")
 	for i, cs := range namedCases() {
 		if !c.Take() {
 			continue
@@ -693,5 +700,6 @@ func main() {
 			"plus a named Parent/Mid/Leaf family structs with up to 130 fields, and self-referential chains to depth 200 through pointers, slices and maps; Leaf = {required, to=1~3, either group of two}; expected clauses from the walk model: field clauses compared in order (as a multiset when a map with >=2 entries is iterated), group clauses (reported after the walk, path-qualified per sub-object) after them as a multiset; non-trivial = a violation at depth>=2",
 		Assumptions: []string{"acyclic graphs only (statement)", "walk model internal/walk"},
 		Run:         run,
+		Modes:       []runner.Mode{{Name: "plain"}, {Name: "lru1", Workers: 6}},
 	})
 }
